@@ -188,13 +188,15 @@ def run_driver(lines, timeout=3600):
 _pm_cache = {}
 
 
-def build_proc_macro(features=None):
-    """Build /repo as the real proc-macro (guard off) and return the path of its .so."""
-    key = "default"
+def build_proc_macro(features=None, release=False):
+    """Build /repo as the real proc-macro (guard off) and return the path of its .so. `release`: cargo's release profile,
+    i.e. without debug assertions - the build a user's `cargo build --release` gives the macro."""
+    key = "release" if release else "default"
     if key in _pm_cache:
         return _pm_cache[key]
     with Lock("cargo"):
-        rc, out, err = run(["cargo", "build", "--offline", "-p", "pmhost", "--message-format=json"], cwd=HARNESS, timeout=3600)
+        rc, out, err = run(["cargo", "build", "--offline", "-p", "pmhost", "--message-format=json"] + (["--release"] if release else []),
+                           cwd=HARNESS, timeout=3600)
     so = None
     for line in out.splitlines():
         try:
